@@ -292,6 +292,10 @@ class Unit:
                 return t1
             if n in ("Mutex", "Arc", "RefCell", "MutexGuard", "Rc") and len(t[2]) == 1:
                 return self.resolve(t[2][0], impl)     # trusted: locking is the identity on the protected value
+            if n in ATOMICS and not t[2]:
+                # (b1819) `AtomicUsize` … = the integer it holds; `fetch_add/fetch_sub/store/swap/load` are place
+                # operations on it (sequential semantics: the translated functions are single-threaded executions)
+                return ("int", ATOMICS[n])
             if n in ("BTreeMap", "OrderedMap", "Map", "HashMap", "UnorderedMap") and len(t[2]) >= 2:
                 k = self.resolve(t[2][0], impl)
                 # "map": ordered by key (BTreeMap); "umap": no defined iteration order (HashMap)
@@ -639,6 +643,7 @@ class FnTranslator:
         self.params = params
         blk = f["body"]
         self.prescan(blk)
+        self.str_lets = self.scan_str_lets(blk, [p[0] for p in params])
         ir = self.stmts(blk[1], blk[2], env, self.fin_return)
         info = FnInfo()
         info.impl, info.name = self.impl, f["name"]
@@ -665,6 +670,47 @@ class FnTranslator:
         info.out_ty = self.out_type()
         info.lean_lines = lambda: fn_lean_lines(info)
         return info
+
+    def scan_str_lets(self, blk, param_names):
+        """(b1819, derive.rs `let hkdf_info = "c-lightning"; … hkdf_info.as_bytes()`) names bound exactly once in the
+        whole body, by `let x = "literal";`, never assigned and not a parameter: name -> the literal.  Only used to spell
+        out `x.as_bytes()`; anything else about such a variable is translated as before."""
+        lets, bad, count = {}, set(param_names), {}
+        def walk(e):
+            if isinstance(e, tuple):
+                if e and e[0] == "pvar" and len(e) > 1 and isinstance(e[1], str):
+                    count[e[1]] = count.get(e[1], 0) + 1      # every binder of the name, whatever the construct
+                if e and e[0] == "let" and isinstance(e[1], tuple) and e[1][0] == "pvar" and e[3] is not None and e[3][0] == "str":
+                    lets[e[1][1]] = e[3][1]
+                if e and e[0] == "assign":
+                    try: bad.add(self.place_root(e[2]))
+                    except RsError: pass
+                if e and e[0] == "ref" and len(e) > 2 and e[2] is True:
+                    try: bad.add(self.place_root(e[1]))
+                    except RsError: pass
+                for x in e: walk(x)
+            elif isinstance(e, list):
+                for x in e: walk(x)
+        walk(blk)
+        return {k: v for k, v in lets.items() if k not in bad and count.get(k) == 1}
+
+    def once_bound(self, blk):
+        """names with exactly one binder in the whole body, never assigned, never `&mut`-borrowed, not a parameter"""
+        bad, count = set(p[0] for p in self.params), {}
+        def walk(e):
+            if isinstance(e, tuple):
+                if e and e[0] == "pvar" and len(e) > 1 and isinstance(e[1], str): count[e[1]] = count.get(e[1], 0) + 1
+                if e and e[0] == "assign":
+                    try: bad.add(self.place_root(e[2]))
+                    except RsError: pass
+                if e and e[0] == "ref" and len(e) > 2 and e[2] is True:
+                    try: bad.add(self.place_root(e[1]))
+                    except RsError: pass
+                for x in e: walk(x)
+            elif isinstance(e, list):
+                for x in e: walk(x)
+        walk(blk)
+        return set(k for k, n in count.items() if n == 1 and k not in bad)
 
     def lock_alias(self, e):
         """`X.lock().unwrap()` / `.expect(..)` -> X"""
@@ -935,7 +981,8 @@ class FnTranslator:
                 except RsError:
                     pass
         if k == "mcall":
-            if e[2] in MUT_METHODS or e[2] == "take" or self.is_mut_self_call(e):
+            if e[2] in MUT_METHODS or e[2] == "take" or self.is_mut_self_call(e) or e[2] in ATOMIC_OPS \
+                    or any(n.endswith("." + e[2]) and x.get("updates_receiver") for n, x in self.u.externals.items()):
                 try:
                     r = self.place_root(e[1])
                     if r not in declared and r not in acc: acc.append(r)
@@ -1056,6 +1103,30 @@ class FnTranslator:
                 return self.wrap(pre, self.stmts(rest, tail, env2, fin))
             if e[0] in ("if", "iflet", "match") and self.has_jump(e):
                 raise RsError("return inside a let initialiser (line %d)" % line)
+            if pat[0] == "pvar" and e[0] == "mcall" and e[2] in ("unwrap", "expect") and e[1][0] == "mcall" \
+                    and e[1][2] == "try_into" and not e[1][4]:
+                # (b1819, derive.rs) `let x: [T; N] = slice.try_into().unwrap();`, or without annotation when `x` is bound
+                # once, never assigned, and stands as a component of the function's tail tuple whose declared type is
+                # `[T; N]` (that is where rustc takes the array type from): `Rs.arrayOfSlice N slice` (panic unless len = N)
+                aty = ty
+                if aty is None and self.f["body"][2] is not None and pat[1] in self.once_bound(self.f["body"]):
+                    tl, rt = self.f["body"][2], self.f["ret"]
+                    if rt is not None and rt[0] == "result" and tl[0] == "call" and tl[1] == ("path", ["Ok"]) and len(tl[2]) == 1:
+                        tl, rt = tl[2][0], rt[1]
+                    if tl == ("path", [pat[1]]): aty = rt
+                    elif tl[0] == "tuple" and rt is not None and rt[0] == "tuple" and len(tl[1]) == len(rt[1]):
+                        ix = [i for i, c in enumerate(tl[1]) if c == ("path", [pat[1]])]
+                        if len(ix) == 1: aty = rt[1][ix[0]]
+                if aty is None or aty[0] != "array" or aty[2][0] != "int":
+                    raise RsError("try_into().unwrap() without a known array type [T; N] (line %d)" % line)
+                pre = []
+                term, t = self.expr(e[1][1], env, pre, None)
+                if t[0] != "vec": raise RsError("try_into on %r" % (t,))
+                self.check_ty(t, self.u.resolve(aty, self.impl), "let at line %d" % line)
+                env2 = dict(env)
+                lp = self.bind_pat(pat, t, env2)
+                pre.append(("bind", lp, MCall("Rs.arrayOfSlice %d %s" % (int(aty[2][1]), self.paren(term)))))
+                return self.wrap(pre, self.stmts(rest, tail, env2, fin))
             if ty is None and pat[0] == "pvar" and self.lit_only(e) and e[0] != "int":
                 return self.let_inferred(pat, e, env, rest, tail, fin, line)    # e.g. `let mut min = 1 << 48;`
             pre = []
@@ -1131,7 +1202,7 @@ class FnTranslator:
         cast, where rustc would default to i32)."""
         snap, restore = self.snap_state, self.restore_state
         s0 = snap()
-        good = []
+        good, why = [], []
         for cand in ("u64", "u32", "usize", "u16", "u8", "u128"):
             t = ("int", cand)
             try:
@@ -1143,11 +1214,12 @@ class FnTranslator:
                 pre.append(("let", lp, term))
                 ir = self.wrap(pre, self.stmts(rest, tail, env2, fin))
                 good.append((cand, ir, snap()))
-            except RsError:
-                pass
+            except RsError as ex:
+                why.append("%s: %s" % (cand, ex))
             restore(s0)
         if len(good) != 1:
-            raise RsError("integer literal without a type (line %d): %d unsigned types fit the later uses" % (line, len(good)))
+            raise RsError("integer literal without a type (line %d): %d unsigned types fit the later uses%s"
+                          % (line, len(good), (" [" + why[2] + "]") if not good and len(why) > 2 else ""))
         restore(good[0][2])
         return good[0][1]
 
@@ -1659,6 +1731,20 @@ class FnTranslator:
 
     def effect_call(self, e, env, pre):
         """expression statement that is a call: mutating Vec methods on a place, &mut self methods, `?` calls"""
+        if e[0] == "mcall" and any(n.endswith("." + e[2]) and x.get("updates_receiver") for n, x in self.u.externals.items()):
+            # (b1819) declared external `T.m` with flag "updates_receiver": a `&mut self` method of a value of an opaque /
+            # foreign type (`HashEngine::input`): `X.m(args);` is `X = ext_T_m(X, args)` — a pure function from the old
+            # receiver and the arguments to the new receiver (its declared `ret` must be `T`)
+            try:
+                self.place_root(e[1]); _, bt0 = self.expr(e[1], env, [], None)
+            except RsError:
+                bt0 = None
+            if bt0 is not None and bt0[0] in ("opaque", "struct"):
+                nm = "%s.%s" % (bt0[1], e[2])
+                if nm in self.u.externals and self.u.externals[nm].get("updates_receiver"):
+                    term, t, _ = self.call_external(nm, [e[1]] + list(e[4]), env, pre)
+                    self.check_ty(t, bt0, nm)
+                    return self.place_set(e[1], term, env, pre)
         if e[0] == "mcall" and e[2] in MUT_METHODS:
             recv = e[1]
             base, bt = self.place_get(recv, env, pre)
@@ -1982,6 +2068,9 @@ class FnTranslator:
             if t == INTLIT: return str(e[1]), INTLIT
             return self.lit(e[1], t), t
         if k == "bool": return ("true" if e[1] else "false"), BOOL
+        if k == "str" and len(e) > 2 and e[2] == "b" and want == ("vec", ("int", "u8")) and "\\" not in e[1]:
+            # (b1819) byte-string literal `b"…"` where bytes are expected: its bytes, spelled out (no escapes admitted)
+            return "[" + ", ".join(str(b) for b in e[1].encode("utf-8")) + "]", ("vec", ("int", "u8"))
         if k == "str": return json.dumps(e[1], ensure_ascii=False), ("str",)
         if k == "unit": return "()", UNIT
         if k == "tuple":
@@ -2805,8 +2894,8 @@ class FnTranslator:
             pre.append(("let", v, base))
             self.place_set(recv, "none", env, pre)
             return v, bt, "val"
-        if recv[0] in ("field", "mcall"):
-            # `self.inner.method(..)` / `self.validator().method(..)` with a receiver of an opaque type
+        if recv[0] in ("field", "mcall", "call"):
+            # `self.inner.method(..)` / `self.validator().method(..)` / `f(x).method(..)` (b1819) with a receiver of an opaque type
             # (`Arc<dyn Trait>`): a method external on it
             pre0, n0 = [], self.n      # (a probe of the receiver's type: must not consume fresh names)
             try:
@@ -2864,6 +2953,8 @@ class FnTranslator:
         if k == "str" and m == "as_bytes" and not args:
             r0 = recv
             while r0[0] in ("paren", "ref"): r0 = r0[1]
+            if r0[0] == "path" and len(r0[1]) == 1 and r0[1][0] in getattr(self, "str_lets", {}):
+                r0 = ("str", self.str_lets[r0[1][0]])      # an immutable local bound once to a literal
             if r0[0] != "str": raise RsError("method .as_bytes on a &str that is not a literal is outside the subset (line %d)" % line)
             return "[" + ", ".join(str(b) for b in r0[1].encode("utf-8")) + "]", ("vec", ("int", "u8")), "val"
         if k == "map" and bt[1] == ("str",) and m == "get" and len(args) == 1:
@@ -2921,7 +3012,7 @@ class FnTranslator:
         except RsError:
             return None
         k = bt[0]
-        if k not in ("vec", "opt", "map", "umap", "set", "uset"): return None
+        if k not in ("vec", "opt", "map", "umap", "set", "uset") and not (is_uint(bt) and m in ATOMIC_OPS): return None
         U = ("int", "usize")
         def arg(i, ty):
             term, t = self.expr(args[i], env, pre, ty)
@@ -2929,6 +3020,24 @@ class FnTranslator:
             return self.paren(term)
         def setp(new):
             self.place_set(recv, new, env, pre)
+        if is_uint(bt):
+            # (b1819) std::sync::atomic integers: the `Ordering` argument is not evaluated; `fetch_add/fetch_sub` wrap
+            # around on overflow (documented behaviour of the atomics) and return the previous value
+            def is_ordering(a):
+                return a[0] == "path" and len(a[1]) >= 2 and a[1][-2] == "Ordering"
+            if m in ("fetch_add", "fetch_sub") and len(args) == 2 and is_ordering(args[1]):
+                base, _ = self.expr(recv, env, pre, None); x = arg(0, bt)
+                v = self.fresh("old"); pre.append(("let", v, base))
+                setp("(Rs.%s %s %s %s)" % ("uwrapAdd" if m == "fetch_add" else "uwrapSub", UMAX[bt[1]], v, x)); return v, bt, "val"
+            if m == "swap" and len(args) == 2 and is_ordering(args[1]):
+                base, _ = self.expr(recv, env, pre, None); x = arg(0, bt)
+                v = self.fresh("old"); pre.append(("let", v, base))
+                setp(x); return v, bt, "val"
+            if m == "store" and len(args) == 2 and is_ordering(args[1]):
+                x = arg(0, bt); setp(x); return "()", UNIT, "val"
+            if m == "load" and len(args) == 1 and is_ordering(args[0]):
+                base, _ = self.expr(recv, env, pre, None); return base, bt, "val"
+            return None
         if k == "vec":
             el = bt[1]
             if m in ("push_back", "push") and len(args) == 1:
@@ -3172,8 +3281,10 @@ class FnTranslator:
         raise RsError("iterator method .%s is outside the subset" % m)
 
 
+ATOMICS = {"AtomicUsize": "usize", "AtomicU64": "u64", "AtomicU32": "u32", "AtomicU16": "u16", "AtomicU8": "u8"}
+ATOMIC_OPS = ("fetch_add", "fetch_sub", "swap", "store", "load")
 MUTATORS = ("push", "push_back", "push_front", "pop", "pop_back", "pop_front", "extend_from_slice", "extend", "remove",
-            "retain", "drain", "reverse", "get_or_insert", "replace", "insert", "clear")
+            "retain", "drain", "reverse", "get_or_insert", "replace", "insert", "clear") + ATOMIC_OPS
 MUT_METHODS = ("resize", "insert", "push", "clear", "truncate", "extend", "remove", "pop", "retain", "drain", "sort",
                "iter_mut", "push_front", "push_back", "pop_front", "pop_back", "append", "extend_from_slice", "reverse",
                "get_or_insert", "replace", "copy_from_slice")
